@@ -519,6 +519,22 @@ impl World for MultiWorld {
                                 out.state_bad = true;
                             }
                         }
+                        // what decides the next EXEC: if the model knows that a watched key changed, at least one of the
+                        // connection's baselines must be behind its key's modification counter (a seeded tracker that
+                        // recorded only a key's first modification passed every first round and failed the second);
+                        // and without any addressed watched key (and without deadlines) none may be
+                        if !m.unwatch_in_multi && !r.watched_detail.is_empty() {
+                            let any_stale = r.watched_detail.iter().any(|(db, key, base)| srv.h.storage.verif_watch_state(*db, key).1 > *base);
+                            let deadlines = m.watched.values().any(|snap| snap.as_ref().map(|e| e.deadline.is_some()).unwrap_or(false));
+                            if m.dirty && !any_stale {
+                                out.devs.push((format!("{}|CONNSTATE|a watched key changed but no baseline is behind its key's counter", self.spec.prop), json!({"conn": i})));
+                                out.state_bad = true;
+                            }
+                            if !m.dirty && !m.maybe_dirty && !deadlines && any_stale {
+                                out.devs.push((format!("{}|CONNSTATE|a baseline is behind its key's counter although no watched key was addressed", self.spec.prop), json!({"conn": i})));
+                                out.state_bad = true;
+                            }
+                        }
                         // flags no command leaves behind at quiescence: an aborted mark outside a transaction, frames
                         // held back for a client that is not blocked
                         if r.aborted && !r.in_multi {
